@@ -492,6 +492,9 @@ pub struct GenCfg {
     /// probability (in 1/16) that a plan draws its running-time hints from a skewed distribution
     /// (mostly VeryShort, now and then VeryLong): groups then fill up to their capacity
     pub rt_skew: usize,
+    /// probability (in 1/16) that a system repeats the dependency list of the last system that had
+    /// one, entry for entry
+    pub p_copy_deps: usize,
 }
 
 thread_local! {
@@ -533,6 +536,7 @@ impl Default for GenCfg {
             write_chance: 16,
             extended_universe: false,
             rt_skew: 0,
+            p_copy_deps: 0,
         }
     }
 }
@@ -619,8 +623,12 @@ fn gen_access(src: &mut Src, cfg: &GenCfg, universe: &[Res]) -> (Vec<Res>, Vec<R
     (reads, writes)
 }
 
-fn gen_deps(src: &mut Src, cfg: &GenCfg, named: &[usize]) -> Vec<usize> {
+fn gen_deps(src: &mut Src, cfg: &GenCfg, named: &[usize], last: &mut Vec<usize>) -> Vec<usize> {
     let mut deps = vec![];
+    // the very same list (same names, same order) as the last system that had one
+    if cfg.p_copy_deps > 0 && !last.is_empty() && src.chance(cfg.p_copy_deps, 16) {
+        return last.clone();
+    }
     if !named.is_empty() && src.chance(cfg.p_dep, 16) {
         let k = 1 + src.pick(cfg.max_deps);
         for _ in 0..k {
@@ -629,6 +637,9 @@ fn gen_deps(src: &mut Src, cfg: &GenCfg, named: &[usize]) -> Vec<usize> {
                 deps.push(d);
             }
         }
+    }
+    if !deps.is_empty() {
+        *last = deps.clone();
     }
     deps
 }
@@ -643,6 +654,7 @@ fn gen_builder(
     let n = src.pick(max_ops + 1);
     let mut ops: Vec<Op> = vec![];
     let mut named: Vec<usize> = vec![];
+    let mut last_deps: Vec<usize> = vec![];
     let mut names = NameGen {
         used: BTreeSet::new(),
     };
@@ -669,7 +681,7 @@ fn gen_builder(
         }
         if depth < cfg.max_depth && src.chance(cfg.p_batch, 16) {
             let name = names.make(src, cfg, i);
-            let deps = gen_deps(src, cfg, &named);
+            let deps = gen_deps(src, cfg, &named, &mut last_deps);
             let decl = if cfg.batch_decl {
                 src.pick(NFAM) as u8
             } else {
@@ -699,7 +711,7 @@ fn gen_builder(
             continue;
         }
         let name = names.make(src, cfg, i);
-        let deps = gen_deps(src, cfg, &named);
+        let deps = gen_deps(src, cfg, &named, &mut last_deps);
         let kind = if src.chance(cfg.p_static, 16) {
             Kind::Static(src.pick(NFAM) as u8)
         } else {
@@ -731,6 +743,9 @@ fn gen_builder(
 
 fn remove_op(ops: &[Op], i: usize) -> Vec<Op> {
     let mut out = vec![];
+    // a rejected registration attempt that reused the removed op's name goes too: in a second step,
+    // so that every index behind it is shifted as well
+    let mut orphan: Option<usize> = None;
     for (j, op) in ops.iter().enumerate() {
         if j == i {
             continue;
@@ -748,10 +763,12 @@ fn remove_op(ops: &[Op], i: usize) -> Vec<Op> {
             Op::Sys { deps, .. } => fix(deps),
             Op::Batch { deps, .. } => fix(deps),
             Op::Rejected { dup_of, .. } => {
-                if *dup_of == i {
-                    continue;
-                }
-                if *dup_of > i {
+                if *dup_of == i || *dup_of == usize::MAX {
+                    if orphan.is_none() {
+                        orphan = Some(out.len());
+                    }
+                    *dup_of = usize::MAX;
+                } else if *dup_of > i {
                     *dup_of -= 1;
                 }
             }
@@ -759,7 +776,10 @@ fn remove_op(ops: &[Op], i: usize) -> Vec<Op> {
         }
         out.push(op);
     }
-    out
+    match orphan {
+        Some(j) => remove_op(&out, j),
+        None => out,
+    }
 }
 
 pub fn simplify_plan(ops: &[Op]) -> Vec<Vec<Op>> {
